@@ -315,22 +315,28 @@ Qed.
 
 (* ------------------------------------------------------------------ E (partial): the meta pass
    preserves values on graphs without ArrayToVector / Zip / A2B / B2A *)
+(* hypotheses of the meta pass theorem that concern the graph only *)
 Definition meta_hyps (nodes : list node) : Prop :=
   const_typed nodes /\
   (forall nd, In nd nodes -> Z.of_nat (length (n_deps nd)) < 2 ^ 64) /\
   (forall nd, In nd nodes -> simple_meta (n_op nd) = true) /\
   meta_typed nodes.
 
+(* the values of a run are well typed *)
+Definition vals_typed (nodes : list node) (vals : list value) : Prop :=
+  forall i nd v, nth_error nodes i = Some nd -> nth_error vals i = Some v -> has_type v (n_ty nd) = true.
+
 Theorem meta_sem_ok_simple nodes o p :
-  meta_hyps nodes -> opt_meta nodes o = Ok p -> pass_sem_ok nodes p.
+  meta_hyps nodes -> ~ bits_ops nodes -> opt_meta nodes o = Ok p -> pass_sem_ok nodes p.
 Proof.
-  intros (Ct & Rg & Sm & Ty) H tape vals V tape' Tc. apply eval_graph_nodes_valuation in V.
-  destruct (meta_sem_thm (fun _ _ => TTuple []) _ _ _ _ _ V Ct Rg Sm Ty H) as (_ & _ & _ & K).
+  intros (Ct & Rg & Sm & Ty) Nb H tape vals V tape' Tc. apply eval_graph_nodes_valuation in V.
+  destruct (meta_sem_thm (fun _ _ => TTuple []) _ _ _ _ _ V Ct Rg Sm (fun B => False_ind _ (Nb B)) Ty H) as (_ & _ & _ & K).
   destruct (K tape' Tc) as (vals' & V' & S). exists vals'. split; auto. now apply eval_graph_nodes_valuation.
 Qed.
 
 Theorem meta_sem_transport nodes o p tape vals :
   meta_hyps nodes ->
+  (bits_ops nodes -> vals_typed nodes vals) ->
   opt_meta nodes o = Ok p ->
   eval_graph_nodes nodes tape = Ok vals ->
   exists vals', eval_graph_nodes (po_nodes p) (transport (po_map p) tape) = Ok vals' /\
@@ -338,8 +344,8 @@ Theorem meta_sem_transport nodes o p tape vals :
                 (forall x, o = Some x -> 0 <= x < Z.of_nat (length nodes) ->
                            nth_error (po_map p) (Z.to_nat x) = Some (po_output p)).
 Proof.
-  intros (Ct & Rg & Sm & Ty) H V. pose proof V as V0. apply eval_graph_nodes_valuation in V.
-  destruct (meta_sem_thm (fun _ _ => TTuple []) _ _ _ _ _ V Ct Rg Sm Ty H) as (F & _ & _ & K).
+  intros (Ct & Rg & Sm & Ty) Vt H V. pose proof V as V0. apply eval_graph_nodes_valuation in V.
+  destruct (meta_sem_thm (fun _ _ => TTuple []) _ _ _ _ _ V Ct Rg Sm Vt Ty H) as (F & _ & _ & K).
   destruct (K _ (transport_compat _ _ _ tape F)) as (vals' & V' & S).
   exists vals'. split; [now apply eval_graph_nodes_valuation|]. split; auto.
   now apply meta_struct_thm in H.
@@ -355,7 +361,7 @@ Theorem optimize_sem_transport infer nodes o p tape vals :
   exists p1 p2 p3 p4,
     opt_const nodes o = Ok p1 /\ opt_meta (po_nodes p1) (po_output p1) = Ok p2 /\
     opt_dup (po_nodes p2) (po_output p2) = Ok p3 /\ opt_dangling (po_nodes p3) (po_output p3) = Ok p4 /\
-    (meta_hyps (po_nodes p1) -> typed_nodes infer (po_nodes p2) ->
+    (meta_hyps (po_nodes p1) -> ~ bits_ops (po_nodes p1) -> typed_nodes infer (po_nodes p2) ->
      (forall nd deps, In nd (po_nodes p2) -> from_tape (n_op nd) = true -> node_key nd deps = Ok None) ->
      exists vals', eval_graph_nodes (po_nodes p)
                      (transport (po_map p4) (transport (po_map p3) (transport (po_map p2) (transport (po_map p1) tape))))
@@ -363,9 +369,9 @@ Theorem optimize_sem_transport infer nodes o p tape vals :
                    sim nodes (po_nodes p) vals vals' (po_map p)).
 Proof.
   intros H Ct V. apply optimize_graph_inv in H as (p1 & p2 & p3 & p4 & E1 & E2 & E3 & E4 & En & Eo & Em).
-  exists p1, p2, p3, p4. repeat split; auto. intros Mh Ty Nk. rewrite En, Em.
+  exists p1, p2, p3, p4. repeat split; auto. intros Mh Nb Ty Nk. rewrite En, Em.
   destruct (const_sem_transport _ _ _ _ _ Ct E1 V) as (v1 & V1 & S1 & _).
-  destruct (meta_sem_transport _ _ _ _ _ Mh E2 V1) as (v2 & V2 & S2 & _).
+  destruct (meta_sem_transport _ _ _ _ _ Mh (fun B => False_ind _ (Nb B)) E2 V1) as (v2 & V2 & S2 & _).
   destruct (dup_sem_transport _ _ _ _ _ _ Ty Nk E3 V2) as (v3 & V3 & S3 & _).
   destruct (opt_dangling_some _ _ _ E4) as (x & Ex). rewrite Ex in E4.
   destruct (dangling_sem_transport _ _ _ _ _ E4 V3) as (v4 & V4 & S4 & _).
@@ -396,7 +402,8 @@ Proof.
   destruct (Ty1 Ic Tn) as (Tn1 & Mt1).
   destruct (const_sem_transport _ _ _ _ _ Ct E1 V) as (v1 & V1 & S1 & _).
   pose proof V1 as V1v. apply eval_graph_nodes_valuation in V1v.
-  destruct (meta_sem_thm infer _ _ _ _ _ V1v Ct1 (Fd1 Fd) (So1 So) (Mt1 Mt) E2) as (F2 & Tn2 & _ & K2).
+  destruct (meta_sem_thm infer _ _ _ _ _ V1v Ct1 (Fd1 Fd) (simple_ops_simple _ (So1 So))
+                         (fun B => False_ind _ (simple_ops_no_bits _ (So1 So) B)) (Mt1 Mt) E2) as (F2 & Tn2 & _ & K2).
   destruct (K2 _ (transport_compat _ _ _ (transport (po_map p1) tape) F2)) as (v2 & V2v & S2).
   pose proof V2v as V2. apply eval_graph_nodes_valuation in V2.
   pose proof (meta_preserves_nokey _ _ _ E2 (Nk1 Nk)) as Nk2.
@@ -455,7 +462,8 @@ Proof.
   destruct (Ty1 Ic Tn) as (Tn1 & Mt1).
   destruct (const_sem_transport _ _ _ _ _ Ct E1 V) as (v1 & V1 & S1 & _).
   apply eval_graph_nodes_valuation in V1.
-  destruct (meta_sem_thm infer _ _ _ _ _ V1 Ct1 (Fd1 Fd) (So1 So) (Mt1 Mt) E2) as (_ & Tn2 & _ & _).
+  destruct (meta_sem_thm infer _ _ _ _ _ V1 Ct1 (Fd1 Fd) (simple_ops_simple _ (So1 So))
+                         (fun B => False_ind _ (simple_ops_no_bits _ (So1 So) B)) (Mt1 Mt) E2) as (_ & Tn2 & _ & _).
   destruct (opt_dangling_some _ _ _ E4) as (x3 & Ex3).
   destruct (dup_output_some _ _ _ _ _ (Tn2 Tn1) E3 Ex3) as (x2 & Ex2 & R2 & M3).
   destruct (meta_output_some _ _ _ _ E2 Ex2) as (x1 & Ex1 & R1 & M2).
@@ -531,7 +539,8 @@ Proof.
   destruct (Ty1 Ic Tn) as (Tn1 & Mt1).
   destruct (const_sem_transport _ _ _ _ _ Ct E1 V) as (v1 & V1 & S1 & _).
   apply eval_graph_nodes_valuation in V1.
-  destruct (meta_sem_thm infer _ _ _ _ _ V1 Ct1 (Fd1 Fd) (So1 So) (Mt1 Mt) E2) as (_ & Tn2 & A2 & _).
+  destruct (meta_sem_thm infer _ _ _ _ _ V1 Ct1 (Fd1 Fd) (simple_ops_simple _ (So1 So))
+                         (fun B => False_ind _ (simple_ops_no_bits _ (So1 So) B)) (Mt1 Mt) E2) as (_ & Tn2 & A2 & _).
   pose proof (const_struct_thm _ _ _ Ct E1) as (_ & B1 & K1 & _).
   pose proof (dup_struct_thm from_tape infer _ _ _ (Tn2 Tn1) E3) as (_ & B3 & K3 & _).
   destruct (opt_dangling_some _ _ _ E4) as (x & Ex). rewrite Ex in E4.
@@ -546,9 +555,10 @@ Proof.
 Qed.
 
 Theorem meta_annots nodes o p tape vals :
-  meta_hyps nodes -> opt_meta nodes o = Ok p -> eval_graph_nodes nodes tape = Ok vals ->
+  meta_hyps nodes -> (bits_ops nodes -> vals_typed nodes vals) ->
+  opt_meta nodes o = Ok p -> eval_graph_nodes nodes tape = Ok vals ->
   annots_incl nodes (po_nodes p) (po_map p).
 Proof.
-  intros (Ct & Rg & Sm & Ty) H V. apply eval_graph_nodes_valuation in V.
-  now destruct (meta_sem_thm (fun _ _ => TTuple []) _ _ _ _ _ V Ct Rg Sm Ty H) as (_ & _ & A & _).
+  intros (Ct & Rg & Sm & Ty) Vt H V. apply eval_graph_nodes_valuation in V.
+  now destruct (meta_sem_thm (fun _ _ => TTuple []) _ _ _ _ _ V Ct Rg Sm Vt Ty H) as (_ & _ & A & _).
 Qed.
